@@ -456,6 +456,21 @@ func (f *ggFn) binary(x *ast.BinaryExpr, env *ggEnv) ggVal {
 		if ggIsFloat(f.tv(x.X).Type) || ggIsFloat(f.tv(x.Y).Type) {
 			return f.floatCmp(x, env)
 		}
+		if x.Op == token.EQL || x.Op == token.NEQ { // r.f == nil / r.f != nil on a field of the struct receiver
+			var other ast.Expr
+			if f.tv(x.Y).IsNil() {
+				other = x.X
+			} else if f.tv(x.X).IsNil() {
+				other = x.Y
+			}
+			if other != nil {
+				v := f.recvNil(other)
+				if x.Op == token.NEQ {
+					v.s = "(negb " + v.s + ")"
+				}
+				return v
+			}
+		}
 		a, b := f.expr(x.X, env), f.expr(x.Y, env)
 		guards := append(append([]string{}, a.guards...), b.guards...)
 		if a.rep.k != b.rep.k {
@@ -1040,6 +1055,36 @@ func (f *ggFn) recvField(e ast.Expr, isLen bool) ggVal {
 		out.ub = ggTypeUB(rep.w)
 	}
 	return out
+}
+
+// recvNil: `r.f == nil` for a pointer / slice / map / interface / func field reached from the struct receiver
+// through struct-typed fields only, as ONE boolean parameter r_f_isnil of the function being translated (the
+// value behind the pointer is never read by the subset: any other use of r.f fails in recvField / expr).
+func (f *ggFn) recvNil(e ast.Expr) ggVal {
+	g := f.g
+	names, idx, ok := f.recvPath(e)
+	txt := g.text(e.Pos(), e.End())
+	if !ok || len(names) == 0 {
+		g.fail(e.Pos(), "comparison of %s with nil (only fields of the method's own struct receiver)", txt)
+	}
+	switch f.tv(e).Type.Underlying().(type) {
+	case *types.Pointer, *types.Slice, *types.Map, *types.Interface, *types.Signature:
+	default:
+		g.fail(e.Pos(), "comparison of %s of type %s with nil", txt, f.tv(e).Type)
+	}
+	key := "nil " + strings.Join(names, ".")
+	rf := f.recvFields[key]
+	if rf == nil {
+		base := ggSafeName(f.recv.Name() + "_" + strings.Join(names, "_") + "_isnil")
+		n := base
+		for i := 1; f.used[n]; i++ {
+			n = fmt.Sprintf("%s_%d", base, i)
+		}
+		f.used[n] = true
+		rf = &ggRecvField{name: n, text: ggComment(txt + " == nil"), idx: idx, rep: ggRep{k: ggB}}
+		f.recvFields[key] = rf
+	}
+	return ggVal{s: rf.name, rep: ggRep{k: ggB}}
 }
 
 // recvFieldList: the receiver's parameters in struct declaration order (len(r.f) after r.f...).
